@@ -89,7 +89,7 @@ def _concrete(x):
     t = type(x)
     if t in _PLAIN:
         return x if t is not bytes else x.decode('latin-1')
-    if t in (list, tuple):
+    if t in (list, tuple) or (isinstance(x, tuple) and t.__module__.startswith('vfw.')):
         return [_concrete(v) for v in x]
     if t is dict:
         return {str(k): _concrete(v) for k, v in x.items()}
